@@ -310,6 +310,10 @@ class Fn:
         arr = np.empty(self.out_shape, dtype=object)
         for idx in np.ndindex(*self.out_shape):
             arr[idx] = Term(fname, args, idx)
+        if self.data_like == "masked":
+            # the user's own masked array along the generated axis (some entries masked): a storage keeps its data
+            mask = [zlib.crc32(repr((fname, args, idx)).encode()) % 2 == 0 for idx in np.ndindex(*self.out_shape)]
+            return np.ma.masked_array(arr, mask=np.array(mask, dtype=bool).reshape(self.out_shape))
         return arr
 
     def build(self, args):
